@@ -60,6 +60,11 @@ func Observe(r *Run) []OpObs {
 				o.Wiring = append(o.Wiring, fmt.Sprintf("f%d (%s)", e.Fn, r.wiringOf(&e)))
 			}
 		}
+		for _, np := range r.W.NestedProv {
+			if np.Op == i {
+				o.Execs = append(o.Execs, fmt.Sprintf("provide-inside-invoke f%d -> %s", np.Fn, verdictOf(np.Facts)))
+			}
+		}
 		sort.Strings(o.Execs)
 		sort.Strings(o.Wiring)
 		out[i] = o
@@ -337,7 +342,7 @@ func permuteBlocks(h *History, res []OpResult, r *Rng) (*History, []int, bool) {
 				}
 				emitted := false
 				for a, x := range pending {
-					if h.Ops[x].Scope < have {
+					if needScope(h, h.Ops[x]) < have {
 						order = append(order, x)
 						pending = append(pending[:a:a], pending[a+1:]...)
 						emitted = true
@@ -372,6 +377,30 @@ func permuteBlocks(h *History, res []OpResult, r *Rng) (*History, []int, bool) {
 	return n, perm, moved
 }
 
+// needScope is the highest scope index op o needs to exist: its target, and
+// the scopes its function's body refers to (nested requests, registrations
+// from inside an invoked function).
+func needScope(h *History, o Op) int {
+	n := o.Scope
+	if o.Kind == OpProvide || o.Kind == OpDecorate || o.Kind == OpInvoke {
+		f := &h.Funcs[o.Fn]
+		if f.Reenter && f.ReKey != nil && f.ReScope > n {
+			n = f.ReScope
+		}
+		if f.ThenProvide > 0 {
+			if f.ThenScope > n {
+				n = f.ThenScope
+			}
+			if t := f.ThenProvide - 1; t < len(h.Funcs) {
+				if g := &h.Funcs[t]; g.Reenter && g.ReKey != nil && g.ReScope > n {
+					n = g.ReScope
+				}
+			}
+		}
+	}
+	return n
+}
+
 // moveScopes returns a linearisation in which only the scope creations move,
 // across registrations *and* Invokes: to the very beginning (early) or as late
 // as possible (just before the first operation that needs the scope). The
@@ -399,7 +428,7 @@ func moveScopes(h *History, early bool) (*History, []int, bool) {
 				if i == scopeOps[k] {
 					continue
 				}
-				if o.Scope == k+1 && i < first {
+				if (o.Scope == k+1 || needScope(h, o) >= k+1) && i < first {
 					first = i
 				}
 			}
@@ -663,6 +692,7 @@ func init() {
 			// signatures, deep scope trees
 			g.ft.Callbacks = g.r.P(0.5)
 			g.ft.Variadic = g.r.P(0.6)
+			g.ft.PThenProvide = 0 // the dry container never runs the function that would register
 			if g.r.P(0.5) {
 				g.ft.MaxScopes, g.ft.MaxDepth = g.r.Range(3, 6), 3
 			}
@@ -711,7 +741,7 @@ func reencode(f *Func, r *Rng) (Func, bool) {
 			}
 			q := p
 			for d := r.Intn(3); d > 0; d-- {
-				q = Param{Kind: PObj, Fields: []Param{q}}
+				q = Param{Kind: PObj, Fields: []Param{q}, Embed: r.P(0.3)}
 			}
 			cur.Fields = append(cur.Fields, q)
 			_ = i
